@@ -11,6 +11,7 @@ import (
 	"testing"
 	"time"
 
+	"github.com/inbucket/inbucket/v3/pkg/storage"
 	"pgregory.net/rapid"
 	"verif/harness/hx"
 )
@@ -31,6 +32,10 @@ type Case struct {
 	NoFinal bool   `json:"no_final_newline"`
 	Raw     []byte `json:"raw,omitempty"`   // fuzz/regress: literal body instead of Lines
 	NRcpt   int    `json:"nrcpt,omitempty"` // recipients of the transaction (0 = one)
+	// Limit, when set, configures the maximum message size relative to the transmitted data:
+	// len(data)+*Limit bytes. At or under the limit the message may be refused (552, nothing
+	// stored) - but whatever is accepted must be complete.
+	Limit *int `json:"limit_delta,omitempty"`
 }
 
 var kinds = []string{"empty", "dot", "dotdot", "dottext", "text", "text", "text", "8bit", "nul", "barecr", "endcr", "crcr", "rand", "long"}
@@ -136,6 +141,10 @@ var prop = hx.Prop[Case]{
 			NoFinal: rapid.IntRange(0, 3).Draw(t, "nofinal") == 0,
 			NRcpt:   rapid.SampledFrom([]int{1, 1, 2, 3}).Draw(t, "nrcpt"),
 		}
+		if rapid.IntRange(0, 3).Draw(t, "limited") == 0 {
+			d := rapid.SampledFrom([]int{-5000, -700, -100, -1, 0, 1, 100}).Draw(t, "limit_delta")
+			c.Limit = &d
+		}
 		if hx.Tier() == "thorough" && rapid.IntRange(0, 150).Draw(t, "huge") == 0 {
 			c.Lines = append(c.Lines, Line{Kind: "huge", EOL: "crlf"})
 		}
@@ -200,14 +209,21 @@ func run(c Case) *hx.Outcome {
 	cfg := hx.DefaultCfg()
 	cfg.Backend = c.Backend
 	cfg.MaxMessageBytes = 64 << 20
+	data := append([]byte("Subject: c02\r\nFrom: a@a.test\r\n\r\n"), body...)
+	wire, tx := hx.DotStuff(data)
+	if c.Limit != nil && hx.StdlibInverts(wire, tx) {
+		cfg.MaxMessageBytes = len(data) + *c.Limit
+		if cfg.MaxMessageBytes < 1 {
+			cfg.MaxMessageBytes = 1
+		}
+		o.Class("size limit close to the message size")
+	}
 	w, err := hx.NewWorld(cfg)
 	if err != nil {
 		o.Failf(pid+":harness", "world: %v", err)
 		return o
 	}
 	defer w.Close()
-	data := append([]byte("Subject: c02\r\nFrom: a@a.test\r\n\r\n"), body...)
-	wire, tx := hx.DotStuff(data)
 	// Recorded finding: the DATA reader does not treat the byte after an empty bare-LF line as
 	// a line start, so a dot there (or the terminator) is decoded wrongly whatever stuffing
 	// rule the client uses. Such cases are set aside (counted) and judged under that key.
@@ -252,8 +268,18 @@ func run(c Case) *hx.Outcome {
 		}
 		return o
 	}
+	if err == nil && r.Code == 552 && cfg.MaxMessageBytes < len(data) {
+		// refused as too large (how the size is counted is C06's business): nothing may be stored
+		o.Class("refused at the size limit")
+		n := 0
+		_ = w.Store.VisitMailboxes(func(ms []storage.Message) bool { n += len(ms); return true })
+		if n != 0 {
+			o.Failf(pid+":stored-after-552", "a %d-byte message was refused with 552 under a limit of %d, yet %d message(s) were stored", len(data), cfg.MaxMessageBytes, n)
+		}
+		return o
+	}
 	if err != nil || r.Code != 250 {
-		o.Failf(pid+":message-refused", "a %d-byte message was answered %v (err %v)", len(data), r, err)
+		o.Failf(pid+":message-refused", "a %d-byte message (limit %d) was answered %v (err %v)", len(data), cfg.MaxMessageBytes, r, err)
 		return o
 	}
 	// the store itself
